@@ -109,6 +109,14 @@ func progCancel() Scenario {
 		Stim{T: 40, Stim: "close"})
 }
 
+// progUnset: the last chunk of a progressive call leaves `progress` unset.
+func progUnset() Scenario {
+	return wScenario(9081, Cfg{Timeout: 100, GoodbyeReply: 0, DealerPPT: true}, 0,
+		Stim{T: 0, Stim: "api", G: 1, Op: "callprog", Name: "c1", Script: []ScriptStep{{D: 2, K: "chunk"}, {D: 1, K: "unset"}}},
+		Stim{T: 6, Stim: "router", M: []any{50.0, map[string]any{"$req": 1}, map[string]any{}, []any{1.0}, map[string]any{}}},
+		Stim{T: 40, Stim: "close"})
+}
+
 // f15Scenarios: the former crash inputs of the PPT code, one per model site.
 func f15Scenarios() []Scenario {
 	ev := func(id int, details map[string]any, args []any) Scenario {
@@ -254,10 +262,8 @@ func witnessReplays(dir string, sum *hcommon.Summary, prop string) []hcommon.Dis
 		}
 		return closed(r)
 	})
-	// CallProgressive, context ending mid-way under mode "kill": the model's behaviour (RP.doubleCancel)
-	// must be the client's. What it is — the waiter's CANCEL{kill} plus the sender goroutine's own
-	// CANCEL{killnowait} for the same request — is reported as a finding candidate (theorem
-	// Nexus.C16.cancel_configured_mode_full_fails); here it is only counted.
+	// formerly finding candidate A (fixed by 4f8171f): a CallProgressive under mode "kill" whose context
+	// ends while sendProg waits — the waiter's CANCEL and the sender goroutine's both say "kill"
 	regress("callprogressive-ctx-cancel", progCancel(), func(r Result) string {
 		var modes []string
 		for _, o := range r.Out {
@@ -268,7 +274,16 @@ func witnessReplays(dir string, sum *hcommon.Summary, prop string) []hcommon.Dis
 				modes = append(modes, strOf(at(m, 2)))
 			}
 		}
-		sum.Count(fmt.Sprintf("candidate.callprogressive-cancel-modes.%s", strings.Join(modes, "+")))
+		if got := strings.Join(modes, "+"); got != "kill+kill" {
+			return "the CANCELs of the cancelled progressive call carry modes " + got + ", configured mode is kill"
+		}
+		return closed(r)
+	})
+	// formerly a panic of the sender goroutine (fixed by 42310e3): the last chunk's options leave progress unset
+	regress("callprogressive-unset-progress", progUnset(), func(r Result) string {
+		if retOf(r, 1) != "result" {
+			return "the progressive call returned " + retOf(r, 1)
+		}
 		return closed(r)
 	})
 	// formerly F15: every former crash input of the PPT code is answered with an error
